@@ -32,6 +32,10 @@ type Case struct {
 	// execution i (i>=1): the Query then simply is another query, and must
 	// behave like a freshly constructed equal one.
 	Edits []Edit
+	// Copies[i]: execution i runs on a shallow copy of the Query value
+	// (cp := *q), as a caller does that hands a prepared query to another
+	// owner; the original is used again afterwards.
+	Copies []bool
 }
 
 // Edit kinds.
@@ -76,6 +80,7 @@ func oracle(c *Case) error {
 	dir := fix.CaseDir()
 	defer os.RemoveAll(dir)
 	var idxs []*updog.Index
+	var pathsOf []string
 	var datas []*model.Data
 	defer func() {
 		for _, i := range idxs {
@@ -93,6 +98,7 @@ func oracle(c *Case) error {
 			return fmt.Errorf("open %d: %v", i, err)
 		}
 		idxs = append(idxs, idx)
+		pathsOf = append(pathsOf, path)
 		datas = append(datas, model.NewData(rows))
 	}
 	q := fix.NewQuery(c.Expr, c.GroupBy)
@@ -147,7 +153,12 @@ func oracle(c *Case) error {
 			snapExpr = fix.ToUpdog(curExpr)
 			snapGB = append([]string(nil), curGB...)
 		}
-		res, err := fix.Exec(idxs[k], q)
+		target := q
+		if step < len(c.Copies) && c.Copies[step] {
+			cp := *q
+			target = &cp
+		}
+		res, err := fix.Exec(idxs[k], target)
 		// the same query value must mean what a fresh equal query means
 		fres, ferr := fix.Exec(idxs[k], fix.NewQuery(curExpr, curGB))
 		if fix.IsPanic(err) {
@@ -247,6 +258,12 @@ func drawCase(t *rapid.T) *Case {
 	for i := 0; i < k; i++ {
 		c.Schedule = append(c.Schedule, rapid.IntRange(0, n-1).Draw(t, "which"))
 	}
+	if rapid.IntRange(0, 3).Draw(t, "copies") == 0 {
+		c.Copies = make([]bool, k)
+		for i := range c.Copies {
+			c.Copies[i] = rapid.Bool().Draw(t, "copy")
+		}
+	}
 	if rapid.IntRange(0, 2).Draw(t, "edits") == 0 {
 		c.Edits = make([]Edit, k)
 		for i := 1; i < k; i++ {
@@ -268,6 +285,13 @@ func drawCase(t *rapid.T) *Case {
 }
 
 func replay(cf *evid.CaseFile) error {
+	if cf.Sub == "wrap" {
+		var c WrapCase
+		if err := evid.Decode(cf.Gob, &c); err != nil {
+			return err
+		}
+		return wrapOracle(&c)
+	}
 	var c Case
 	if err := evid.Decode(cf.Gob, &c); err != nil {
 		return fmt.Errorf("undecodable case: %v", err)
@@ -275,14 +299,90 @@ func replay(cf *evid.CaseFile) error {
 	return oracle(&c)
 }
 
+// WrapCase: a Query is executed on index A; exactly Gap-1 other Index objects
+// are opened and closed; then an index B with the same columns but other
+// values is opened (the Gap-th open after A) and the same Query value is
+// executed on it.  Gaps are powers of two: whatever numbers or stamps Index
+// objects must not wrap around into "the index this Query has seen".
+type WrapCase struct{ Gaps []int }
+
+func (c *WrapCase) Summary() string {
+	return fmt.Sprintf("one Query on index A, then on an index B (same columns, other values) opened exactly %v Index objects later", c.Gaps)
+}
+
+func wrapOracle(c *WrapCase) error {
+	dir := fix.CaseDir()
+	defer os.RemoveAll(dir)
+	rowsA := []model.Row{{"a": "1", "b": "x"}, {"a": "2", "b": "x"}, {"a": "2", "b": "y"}}
+	rowsB := []model.Row{{"a": "7", "b": "p"}, {"a": "8", "b": "q"}, {"a": "9", "b": "q"}, {"a": "9"}}
+	pa, _, err := fix.Build(dir, rowsA, fix.WMemFile)
+	if err != nil {
+		return fmt.Errorf("INFRA: %v", err)
+	}
+	pb, _, err := fix.Build(dir, rowsB, fix.WMemFile)
+	if err != nil {
+		return fmt.Errorf("INFRA: %v", err)
+	}
+	expr, gb := model.Not(model.Eq("a", "none")), []string{"a", "b"}
+	q := fix.NewQuery(expr, gb)
+	ia, _, err := fix.Open(pa, fix.OpenCfg{CacheCap: -1})
+	if err != nil {
+		return fmt.Errorf("INFRA: %v", err)
+	}
+	defer func() { fix.Safe(ia.Close) }()
+	res, err := fix.Exec(ia, q)
+	if cerr := fix.CompareOutcome(model.NewData(rowsA), expr, gb, res, err); cerr != nil {
+		return fmt.Errorf("on index A: %v", cerr)
+	}
+	opened := 0
+	for _, gap := range c.Gaps {
+		for ; opened < gap-1; opened++ {
+			x, _, err := fix.Open(pa, fix.OpenCfg{CacheCap: -1})
+			if err != nil {
+				return fmt.Errorf("INFRA: %v", err)
+			}
+			x.Close()
+		}
+		ib, _, err := fix.Open(pb, fix.OpenCfg{CacheCap: -1})
+		if err != nil {
+			return fmt.Errorf("INFRA: %v", err)
+		}
+		opened++
+		res, err := fix.Exec(ib, q)
+		cerr := fix.CompareOutcome(model.NewData(rowsB), expr, gb, res, err)
+		ib.Close()
+		if cerr != nil {
+			return fmt.Errorf("the Query executed on index A and then on index B, the %d-th Index opened after A: %v", gap, cerr)
+		}
+		// and on A again
+		res, err = fix.Exec(ia, q)
+		if cerr := fix.CompareOutcome(model.NewData(rowsA), expr, gb, res, err); cerr != nil {
+			return fmt.Errorf("back on index A after index B (gap %d): %v", gap, cerr)
+		}
+	}
+	return nil
+}
+
+func runWrap(t interface{ Fatalf(string, ...any) }, c *WrapCase) {
+	evid.Case(true, c.Summary(), "index-number-wrap")
+	if err := wrapOracle(c); err != nil {
+		if strings.HasPrefix(err.Error(), "INFRA:") {
+			panic(err.Error())
+		}
+		fix.Fail(t, prop, "wrap", c, c.Summary(), err)
+	}
+}
+
 func TestQuick(t *testing.T) {
 	fix.Pinned(t, prop, replay)
+	runWrap(t, &WrapCase{Gaps: []int{256, 65536}})
 	fix.Check(t, "reexec", 3000, func(rt *rapid.T) { run(rt, drawCase(rt)) })
 }
 
 func TestThorough(t *testing.T) {
 	if shard, _ := evid.Shard(); shard == 0 {
 		fix.Pinned(t, prop, replay)
+		runWrap(t, &WrapCase{Gaps: []int{256, 65536, 131072}})
 	}
 	fix.Check(t, "reexec", 40000, func(rt *rapid.T) { run(rt, drawCase(rt)) })
 }
